@@ -59,8 +59,74 @@ def hostile_stream(rng, kind):
 	return s
 
 
+PCT_ALPHA = b'-+ _\t019afAFxXgG%.'
+
+
+def systematic(rng, tier):
+	"""token-level enumeration: every two-octet tail after '%' in every URI position and in an RFC 5987 parameter;
+	content codings x declared charsets with VALID coded bodies; line-end variants of chunked bodies cut everywhere"""
+	import gzip
+	import zlib
+	out = []
+	tails = [bytes([a, b]) for a in PCT_ALPHA for b in PCT_ALPHA] + [bytes([a]) for a in PCT_ALPHA] + [b'']
+	if tier != 'thorough':
+		tails = [t for i, t in enumerate(tails) if i % 3 == rng.randrange(3) or t[:1] in b'-+ _']
+	for t in tails:
+		if b' ' in t or b'\t' in t:
+			where = [b'GET /x HTTP/1.1\r\nHost: h\r\nContent-Type: a/b; n*=utf-8\'\'%%%s\r\n\r\n' % t]
+		else:
+			where = [b'GET /a%%%s HTTP/1.1\r\nHost: h\r\n\r\n' % t, b'GET /?q=%%%s HTTP/1.1\r\nHost: h\r\n\r\n' % t, b'GET http://h%%%s/ HTTP/1.1\r\nHost: h\r\n\r\n' % t,
+				b'GET http://u%%%s@h/ HTTP/1.1\r\nHost: h\r\n\r\n' % t, b'GET /#%%%s HTTP/1.1\r\nHost: h\r\n\r\n' % t, b'GET /x HTTP/1.1\r\nHost: h\r\nContent-Disposition: a; n*=utf-8\'\'%%%s\r\n\r\n' % t]
+		for s in where:
+			out.append({'k': 'hostile', 'kind': 'server', 's': s.hex(), 'cuts': [[]]})
+	for coding, comp in ((b'gzip', lambda d: gzip.compress(d, mtime=0)), (b'deflate', zlib.compress), (b'GZIP', lambda d: gzip.compress(d, mtime=0)), (b'x-gzip', lambda d: gzip.compress(d, mtime=0))):
+		for ct in (None, b'text/plain; charset=foo', b'text/plain; charset=utf-16', b'text/plain; charset=cp500', b'text/plain; charset=ascii', b'application/json', b'text/plain; charset="', b'x'):
+			for payload in (b'', b'abc', b'\xff\xfe', b'a' * 5000):
+				body = comp(payload)
+				for kind, head in (('server', b'POST / HTTP/1.1\r\nHost: h\r\n'), ('client', b'HTTP/1.1 200 OK\r\n')):
+					s = head + b'Content-Encoding: ' + coding + b'\r\n' + (b'Content-Type: ' + ct + b'\r\n' if ct else b'') + b'Content-Length: %d\r\n\r\n' % len(body) + body
+					out.append({'k': 'hostile', 'kind': kind, 's': s.hex(), 'cuts': [[]]})
+	for le in (b'\n', b'\r', b'\r\r\n', b'\n\r', b'\r\n'):
+		for kind, head in (('server', b'POST / HTTP/1.1\r\nHost: h\r\nTransfer-Encoding: chunked\r\n\r\n'), ('client', b'HTTP/1.1 200 OK\r\nTransfer-Encoding: chunked\r\n\r\n')):
+			for body in (b'5;e=1' + le + b'hello' + le + b'0' + le + le, b'5\r\nhello\r\n0' + le + b'A: b' + le + le, b'5' + le + b'hello\r\n0\r\n\r\n'):
+				s = head + body
+				out.append({'k': 'hostile', 'kind': kind, 's': s.hex(), 'cuts': [[], list(range(1, len(s)))] + [[p] for p in range(len(head) - 2, len(s))]})
+	return out
+
+
+def depth_probes(tier):
+	"""inputs whose nesting / repetition count is large: no construct may cost interpreter stack per repetition"""
+	ns = [1500, 6000] if tier == 'quick' else [1500, 6000, 30000]
+	out = []
+	for n in ns:
+		for kind, line, host in (('server', b'GET / HTTP/1.1\r\n', b'Host: h\r\n'), ('client', b'HTTP/1.1 200 OK\r\n', b'')):
+			out.append((kind, 'leading-crlf', b'\r\n' * n + line + host + b'\r\n'))
+			out.append((kind, 'leading-lf', b'\n' * n + line + host + b'\r\n'))
+			out.append((kind, 'header-lines', line + host + b''.join(b'X-%d: v\r\n' % i for i in range(n)) + b'\r\n'))
+			out.append((kind, 'same-header', line + host + b'X: v\r\n' * n + b'\r\n'))
+			out.append((kind, 'continuations', line + host + b'X: v\r\n' + b' c\r\n' * n + b'\r\n'))
+			out.append((kind, 'commas', line + host + b'Accept: ' + b'a/b,' * n + b'c/d\r\n\r\n'))
+			out.append((kind, 'params', line + host + b'Content-Type: a/b' + b';p=1' * n + b'\r\n\r\n'))
+			out.append((kind, 'quotes', line + host + b'Content-Type: a/b; p=' + b'"' * n + b'\r\n\r\n'))
+			out.append((kind, 'encoded-words', line + host + b'X: ' + b'=?utf-8?q?a?= ' * n + b'\r\n\r\n'))
+			out.append((kind, 'trailers', line + host + b'Transfer-Encoding: chunked\r\nTrailer: ' + b','.join(b'T%d' % i for i in range(n)) + b'\r\n\r\n0\r\n' + b''.join(b'T%d: v\r\n' % i for i in range(n)) + b'\r\n'))
+			out.append((kind, 'chunk-ext', line + host + b'Transfer-Encoding: chunked\r\n\r\n1' + b';e=1' * n + b'\r\na\r\n0\r\n\r\n'))
+			out.append((kind, 'pipeline', (line + host + b'Content-Length: 0\r\n\r\n') * n))
+		out.append(('server', 'segments', b'GET /' + b'a/' * n + b' HTTP/1.1\r\nHost: h\r\n\r\n'))
+		out.append(('server', 'dotdots', b'GET /' + b'../' * n + b' HTTP/1.1\r\nHost: h\r\n\r\n'))
+		out.append(('server', 'enc-dotdots', b'GET /' + b'%2e%2e/' * n + b' HTTP/1.1\r\nHost: h\r\n\r\n'))
+		out.append(('server', 'slashes', b'GET ' + b'/' * n + b' HTTP/1.1\r\nHost: h\r\n\r\n'))
+		out.append(('server', 'query-pairs', b'GET /?' + b'a=b&' * n + b' HTTP/1.1\r\nHost: h\r\n\r\n'))
+		out.append(('server', 'spaces', b'GET' + b' ' * n + b'/ HTTP/1.1\r\nHost: h\r\n\r\n'))
+		out.append(('server', 'host-labels', b'GET / HTTP/1.1\r\nHost: ' + b'a.' * n + b'b\r\n\r\n'))
+		out.append(('server', 'userinfo', b'GET http://' + b'u:p@' * n + b'h/ HTTP/1.1\r\nHost: h\r\n\r\n'))
+	return out
+
+
 def gen_cases(rng, tier):
-	cases = []
+	cases = systematic(rng, tier)
+	for kind, label, s in depth_probes(tier):
+		cases.append({'k': 'depth', 'kind': kind, 'label': label, 'n': len(s), 's': s.hex()})
 	n = 6000 if tier == 'thorough' else 500
 	for i in range(n):
 		kind = 'server' if rng.random() < .6 else 'client'
@@ -87,6 +153,11 @@ def _chunk_stream(kind, n):
 def observe(c):
 	if c['k'] == 'hostile':
 		return pc.observe_stream(c['kind'], bytes.fromhex(c['s']), c['cuts'])
+	if c['k'] == 'depth':
+		t0 = time.perf_counter()
+		o = parser_rec.run(c['kind'], [bytes.fromhex(c['s'])], record=False)
+		last = o['calls'][-1]
+		return {'result': last.get('err', 'ok:%d' % len(last.get('msgs', []))), 'msg': last.get('msg', ''), 'secs': round(time.perf_counter() - t0, 2)}
 	if c['k'] == 'manychunks':
 		s = _chunk_stream(c['kind'], c['n'])
 		o = parser_rec.run(c['kind'], [s], record=c['n'] <= 300)
@@ -142,6 +213,12 @@ def oracle(c, o):
 		esc = _escapes(o)
 		if esc:
 			return '%s escaped from parse(): %s' % (esc[0][0].split(':', 1)[1], esc[0][1])
+	if c['k'] == 'depth':
+		r = o['result']
+		if isinstance(r, str) and r.startswith('escape'):
+			return '%s for %s repeated (stream of %d octets in one buffer): %s' % (r.split(':', 1)[1], c['label'], c['n'], o.get('msg', ''))
+		if o['secs'] > 20:
+			return 'parsing %s (%d octets) took %.1f s' % (c['label'], c['n'], o['secs'])
 	if c['k'] == 'manychunks':
 		r = o['result']
 		if isinstance(r, str) and r.startswith('escape'):
@@ -164,7 +241,7 @@ def classify(c, o, fail):
 
 def nontrivial(c, o):
 	if c['k'] != 'hostile':
-		return (c['k'], c['kind'], c.get('n'))
+		return (c['k'], c['kind'], c.get('n'), c.get('label'))
 	d, e, left = pc.summary(o['runs'][0])
 	return c['s'] if (d or e is not None) else None
 
